@@ -1,6 +1,7 @@
 //! mlv — correspondence harness between the Coq model (/verif/coq) and the crate in /repo.
 mod c03;
 mod c05n;
+mod c07;
 mod c08;
 mod c09;
 mod c10;
@@ -135,6 +136,10 @@ fn main() {
         "c08" | "c17" => {
             let o = c08::generate(seed, scale, cmd);
             o.write(&out, cmd, "From MLV Require Import model.Bytes model.PutQuery model.Check08.", "c08case", "run08", shards);
+        }
+        "c07" => {
+            let o = c07::generate(seed, scale);
+            o.write(&out, "c07", "From MLV Require Import model.Bytes model.Id model.Node model.Check11 model.IterQuery model.Check07.", "c07case", "run07", shards);
         }
         "c09" => {
             let o = c09::generate(seed, scale);
